@@ -461,4 +461,73 @@ example : Oversized ⟨false, 64⟩ [1, 0, 40, 0x80] :=
   Or.inr ⟨[1, 0, 40], 0x80, [], rfl, by decide, Or.inl rfl, by decide⟩
 example : ¬ SIZE_LIMIT < b1282int [0, 0, 40] := by decide
 
+/-! ## boundary classes named by the white-box mutation audit (harness/mutants/C44)
+
+The theorems above already quantify over every expression, depth, size and stream; the ones below name the corners at which
+realistic regressions were found to hide (an exclusive size limit, a cap on the nesting depth, a prefix-length check that
+ignores zero padding), so that each has a statement and a non-vacuity example of its own. -/
+
+theorem allInLimits_replicate (lim n : Nat) (x : Expr) (hx : inLimits lim x = true) :
+    allInLimits lim (List.replicate n x) = true := by
+  induction n with
+  | zero => simp [allInLimits]
+  | succ n ih => simp [List.replicate_succ, allInLimits, hx, ih]
+
+/-- **The size limit is inclusive**: a list or tuple of exactly `SIZE_LIMIT` acceptable elements is sent … -/
+theorem encode_accepts_full_list (c : Cfg) (t : Bool) (x : Expr) (hx : inLimits c.lim x = true) :
+    ∃ bs, encode c (.seq t (List.replicate SIZE_LIMIT x)) = .ok bs := by
+  rw [encode_accepts_iff]
+  simp [inLimits, allInLimits_replicate _ _ _ hx]
+
+/-- … and one element more is refused, whatever the elements are. -/
+theorem encode_refuses_overfull_list (c : Cfg) (t : Bool) (xs : List Expr) (h : SIZE_LIMIT < xs.length) :
+    encode c (.seq t xs) = .error .banana := by
+  apply encode_refuses_out_of_range
+  simp only [inLimits, Bool.and_eq_false_imp, decide_eq_true_eq]
+  omega
+
+example : ∃ bs, encode ⟨false, 64⟩ (.seq true (List.replicate SIZE_LIMIT (.int (-1)))) = .ok bs :=
+  encode_accepts_full_list _ _ _ (by decide)
+example : encode ⟨true, 64⟩ (.seq false (List.replicate (SIZE_LIMIT + 1) (.int 0))) = .error .banana :=
+  encode_refuses_overfull_list _ _ _ (by simp)
+
+/-- `n` lists inside each other around `e` -/
+def nest : Nat → Expr → Expr
+  | 0, e => e
+  | n + 1, e => .seq false [nest n e]
+
+theorem nest_inLimits (lim n : Nat) (e : Expr) : inLimits lim (nest n e) = inLimits lim e := by
+  induction n with
+  | zero => rfl
+  | succ n ih => simp [nest, inLimits, allInLimits, ih, SIZE_LIMIT]
+
+/-- **No bound on the nesting depth**: `e` wrapped in any number of lists round-trips, for every cutting of the stream. -/
+theorem decode_encode_nested (c : Cfg) (hc : 3 ≤ c.lim) (n : Nat) (e : Expr) (he : inLimits c.lim e = true) :
+    ∃ bs, encode c (nest n e) = .ok bs ∧
+      ∀ chunks : List Bytes, chunks.flatten = bs →
+        feedAll c State.init chunks = { st := State.init, outs := [listify (nest n e)], err := none } :=
+  decode_encode c hc (nest n e) (by rw [nest_inLimits]; exact he)
+
+example : nest 3 (.int 7) = .seq false [.seq false [.seq false [.int 7]]] := rfl
+example : inLimits 3 (nest 12 (.float 0)) = true := by rw [nest_inLimits]; rfl
+
+theorem scan_low_prefix (ds rest : Bytes) (hd : ∀ d ∈ ds, d < HIGH_BIT_SET) : ds.length ≤ scan (ds ++ rest) := by
+  induction ds with
+  | nil => simp
+  | cons x xs ih =>
+    have hx : low x = true := by simpa [low] using hd x (by simp)
+    rw [List.cons_append, scan_cons, if_pos hx]
+    have := ih (fun d hd' => hd d (by simp [hd']))
+    simp only [List.length_cons]
+    omega
+
+/-- **A prefix longer than the limit is oversized whatever its digits are** — zero padding included — and whatever follows
+    it (a type byte or nothing yet). -/
+theorem oversized_of_long_prefix (c : Cfg) (ds rest : Bytes) (hd : ∀ d ∈ ds, d < HIGH_BIT_SET) (h : c.lim < ds.length) :
+    Oversized c (ds ++ rest) :=
+  Or.inl (Nat.lt_of_lt_of_le h (scan_low_prefix ds rest hd))
+
+example : Oversized ⟨false, 64⟩ (1 :: List.replicate 64 0 ++ [0x81]) :=
+  oversized_of_long_prefix _ (1 :: List.replicate 64 0) [0x81] (by decide) (by decide)
+
 end TwistedProps.C44
